@@ -398,7 +398,7 @@ Definition encode (r : reply) : list N :=
 (* --- an independent reader of the reply stream (what a PostgreSQL client does) --- *)
 Inductive pstate :=
 | PHdr (done : list (N * list N)) (hdr : list N)                       (* header bytes so far, reversed *)
-| PBody (done : list (N * list N)) (tag : N) (remaining : nat) (acc : list N)   (* acc reversed *)
+| PBody (done : list (N * list N)) (tag : N) (remaining : N) (acc : list N)     (* acc reversed *)
 | PBad.
 
 Definition dec32 (b3 b2 b1 b0 : N) : N := ((b3 * 256 + b2) * 256 + b1) * 256 + b0.
@@ -412,15 +412,13 @@ Definition pstep (st : pstate) (b : N) : pstate :=
           let len := dec32 b3 b2 b1 b in
           if len <? 4 then PBad
           else if len =? 4 then PHdr (done ++ [(t, [])]) []
-          else PBody done t (N.to_nat (len - 4)) []
+          else PBody done t (len - 4) []
       | _ => PHdr done (b :: hdr)
       end
   | PBody done t rem acc =>
-      match rem with
-      | O => PBad
-      | S O => PHdr (done ++ [(t, rev (b :: acc))]) []
-      | S k => PBody done t k (b :: acc)
-      end
+      if rem =? 0 then PBad
+      else if rem =? 1 then PHdr (done ++ [(t, rev (b :: acc))]) []
+      else PBody done t (rem - 1) (b :: acc)
   end.
 
 Definition parse_frames (bs : list N) : option (list (N * list N)) :=
@@ -478,4 +476,39 @@ Definition ends_with_rfq (bs : list N) : bool :=
   match parse_frames bs with
   | Some fs => match rev fs with (90, [73]) :: _ => true | _ => false end
   | None => false
+  end.
+
+(* ------------------------------------------------------------------ observations for the correspondence *)
+Definition cmd_index (c : cmd) : N :=
+  match c with
+  | SetShardingKey => 0 | SetShard => 1 | ShowShard => 2 | SetServerRole => 3 | ShowServerRole => 4
+  | SetPrimaryReads => 5 | ShowPrimaryReads => 6 | InvalidShardingKey => 7
+  end.
+Definition obs_classify (s : list N) : N * list N :=
+  match classify s with Some (c, a) => (cmd_index c, a) | None => (99, []) end.
+Definition obs_classify_msg (code : N) (body : list N) : N * list N :=
+  match classify_msg code body with
+  | Panic => (98, [])
+  | Ok (Some (c, a)) => (cmd_index c, a)
+  | Ok None => (99, [])
+  end.
+Definition role_index (r : option role) : N :=
+  match r with None => 0 | Some Primary => 1 | Some Replica => 2 | Some Mirror => 3 end.
+Definition obs_state (e : env) (st : rstate) : option N * N * bool * bool :=
+  (st_shard st, role_index (st_role st), parser_enabled e st, preads_enabled e st).
+
+(* one session of raw query texts with the environment's choices; per step:
+   (try_execute_command's result, state after it, reply bytes, state after the glue) *)
+Fixpoint session_obs (e : env) (st : rstate) (l : list (list N * N))
+  : list ((N * list N) * (option N * N * bool * bool) * list N * (option N * N * bool * bool)) :=
+  match l with
+  | [] => []
+  | (q, o) :: l' =>
+      match classify q with
+      | None => ((99, []), obs_state e st, [], obs_state e st) :: session_obs e st l'
+      | Some (c, a) =>
+          let '(st1, (c1, v)) := texec e st c a o in
+          let '(st2, r) := handle e st c a o in
+          ((cmd_index c1, v), obs_state e st1, encode r, obs_state e st2) :: session_obs e st2 l'
+      end
   end.
